@@ -1517,4 +1517,14 @@ example :
         ("credit", Rd.obj "CurrencyCollection" [("grams", .int 0), ("other", Rd.obj "ExtraCurrencyCollection" [("dict_", .unit)])])],
         ⟨[true], []⟩) := by rfl
 
+
+/-- non-vacuity of `c16_src_Transaction`: the concrete transaction is encodable with budget 1 and has no `addr_var`, so the
+    regenerated `Transaction.deserialize` reads its encoding back, whatever follows -/
+example : ∃ f, (transactionF 1).enc Tx.exampleTransaction = some f ∧
+    ∀ k, SrcTx.Transaction 1 false (f ++ k) = some (Tx.view_Transaction 1 Tx.exampleTransaction, k) := by
+  have h1 : ((transactionF 1).enc Tx.exampleTransaction).isSome = true := by decide +kernel
+  have h2 : Tx.exampleTransaction.noVar = true := by decide +kernel
+  obtain ⟨f, hf⟩ := Option.isSome_iff_exists.1 h1
+  exact ⟨f, hf, fun k => c16_src_Transaction 1 Tx.exampleTransaction f hf h2 k⟩
+
 end TonVerif.Tlb
